@@ -20,7 +20,7 @@ BATCH_FIELDS = ("base_offset", "partition_leader_epoch", "attributes", "last_off
 
 
 def _blob(rng, thorough: bool) -> tuple[bytes | None, str]:  # noqa: ANN001
-    kinds = ["none", "empty", "one", "63", "64", "small", "small", "8191", "8192"] + (["1MiB"] if thorough and rng.random() < 0.02 else [])
+    kinds = ["none", "empty", "one", "63", "64", "small", "small", "8191", "8192"] + (["1MiB"] if thorough and rng.random() < 0.0005 else [])
     k = rng.choice(kinds)
     if k == "none":
         return None, k
